@@ -16,6 +16,9 @@ claimed = {
  "C12": dict(cat="model_checking",
    text="Binder side of the hand-off, decided inductively: the real BindRequestReconciler.Reconcile (+UpdateStatus, updatePodCondition) is executed on an in-memory API store from an ARBITRARY stored status (phase, failedAttempts in [0,2^30), backoffLimit nil or any int32) with the bind failing or succeeding; the solver decides for all those values that the attempt count is persisted (+1 while below the limit), that the request is observably failed to the scheduler (real BindRequestInfo.IsFailed on the stored object) once the reconciler stops retrying, that a Succeeded request is a no-op; plus the k-step loop for limits 1..4 (quick)/1..8 (thorough): at most limit retries, terminates, ends IsFailed. One inductive step from every stored state covers retry histories of any length. Scheduler-side charging of pending BindRequests is covered by the C14/C01 harness family where built; true two-process interleavings are outside (shared store with atomic API calls, step of either side from every stored state).",
    ref="DESIGN.md section 5 C12"),
+ "C08": dict(cat="model_checking",
+   text="One inductive step, decided by the solver for all values: from ANY state of a queue chain (depth 1..2 quick / 1..3 thorough; per queue limit, deserved quota (each possibly -1 = unlimited), allocated and non-preemptible allocated as symbolic integers) that satisfies the property's invariant, the real decision pipeline - CapacityPolicy.IsJobOverQueueCapacity, then per task IsTaskAllocationOnNodeOverCapacity (real NodeInfo.GetRequiredInitQuota), real NodeInfo.AddTask (sets AcceptedResource) and the real proportion allocate handler - re-establishes 'allocated <= limit' and 'non-preemptible allocated <= deserved' at every level. Whole-resource variant: 1..2 tasks, one resource dimension at a time (cpu / memory / whole GPUs). Fractional variant: fraction and gpu-memory requests from a menu x 1..2 devices on 1000 MiB GPUs, GPU dimension, integer+decimal arithmetic decided exactly without the FP theory. An inductive invariant covers histories of any length.",
+   ref="DESIGN.md section 5 C08"),
 }
 
 na_reasons = {}
